@@ -41,6 +41,7 @@ def rules(ctx):
     # or a snapshot taken outside the lock, returns an older value even without concurrency beyond the flush thread)
     C06.c063(ctx)
     C06.c065(ctx)
+    C06.c066(ctx)
     # close/reopen cycles: the log is replayed (or provably empty) before it is retired, the manifest replays an edit in
     # remove-then-add order, and the orphan scan never selects a listed file -- otherwise reopen loses a write or fails
     from . import C13, C08
